@@ -13,7 +13,7 @@ from mc.common import HarnessError, Stats, pmap, safe
 
 PROPERTY = 'C12'
 LEVEL = 'exploration'
-RULE = ('FeatureTransformerGeneric.construct_new_features on every column of length <= 3 over {"", 0, -1, 1, 2, 1e300, -0.0} extended per fw threshold g '
+RULE = ('FeatureTransformerGeneric.construct_new_features on every column of length <= 3 over {"", 0, -1, 1, 2, 1e300, -0.0, \'""\', \'"2"\'} extended per fw threshold g '
         'by {g, g-1e-9, g+1e-9} (every where(X<g)/where(X>g) boundary hit exactly and from both sides), for the minimal, default and fw-transformers '
         'presets, every emitted/dropped column judged against an independent scalar formula table keyed by the transformer NAME; one probe column per fw '
         'family containing all thresholds and their neighbours; keep/drop rule on all multisets of length 4..8 (two row orders); every list of <= 3 '
@@ -21,7 +21,7 @@ RULE = ('FeatureTransformerGeneric.construct_new_features on every column of len
 ASSUMPTIONS = ['numeric agreement rtol 1e-9 after parsing the emitted text back to float; NaN == NaN, inf == inf',
                'keep/drop decisions where value-based and text-based distinctness disagree (0.0 vs -0.0) or reference values differ by < 1e-9 relative are classified ambiguous and not judged']
 
-BASE = ['', '0', '-1', '1', '2', '1e300', '-0.0']
+BASE = ['', '0', '-1', '1', '2', '1e300', '-0.0', '""', '"2"']   # quotes are removed before parsing: "" is an empty cell, "2" is 2
 INT_G = [1, 2, 4, 8, 16, 32, 64, 96]
 PROB_G = [g / 100 for g in INT_G]
 RES = [1, 10, 50, 100]
@@ -406,8 +406,8 @@ def _dispatch(item):
 def run(ctx):
     vault0()
     jobs = []
-    n3 = 7 + 49 + 343
-    n4 = n3 + 2401
+    n3 = sum(len(BASE) ** k for k in (1, 2, 3))
+    n4 = n3 + len(BASE) ** 4
     for preset in ('minimal', 'default'):
         tot = n4 if ctx.thorough else n3
         jobs += [('cols', (preset, BASE, 4 if ctx.thorough else 3, lo, min(tot, lo + 200))) for lo in range(0, tot, 200)]
